@@ -15,7 +15,7 @@ ASSUMPTIONS = {
     "M": "machine arithmetic is NOT treated as mathematical: every u32/usize operation in the functions under contract carries Verus's overflow obligation (the occurrence counter saturates, D5); int/nat occur only in ghost code",
     "U": "there is no unsafe code in /repo/src (checked by a text scan on every run); the external crates quick_xml, convert_string, log are outside the verifier (A5) and may contain unsafe code",
     "V": "Verus 0.2026.09.13 + Z3 are trusted; vstd's specifications of Vec, Option, Result, HashMap, slice iterators, String::clone are trusted; termination of spec functions is checked by Verus",
-    "H": "'unique for all operation sequences' / 'for all histories of extend' / 'across all occurrences' is the induction over the per-operation contracts (constructor establishes, every operation preserves); that induction step is the standard meta-argument and is not itself machine-checked",
+    "H": "that a caller's sequence of API calls is a sequence of the verified steps (sequential composition) is the only meta-argument left; the inductions over operation sequences, occurrences, nesting depth and extend calls are machine-checked (theorem_c16_all_sequences, theorem_level_occurrences, theorem_deep, lemma_deep_compose, theorem_into/theorem_extend)",
 }
 
 PROPS = {
